@@ -33,22 +33,52 @@ func downloadRules(c *Check, rule string) (D string) {
 	c.floor("CRL download success returns", 1, len(ok))
 	do := "(*net/http.Client).Do(p2, net/http.NewRequestWithContext(p0, \"GET\", p1, nil)#0)"
 	body := "io.ReadAll(io.LimitReader(" + do + "#0.Body, 33554432))"
+	bodyData, bodyErr := body+"#0", body+"#1"
+	// second form of the bounded read: a fresh bytes.Buffer filled by one ReadFrom over the same
+	// LimitReader and by nothing else; the parsed bytes are its contents
+	bufRead := "(*bytes.Buffer).ReadFrom(&$[bytes.Buffer], io.LimitReader(" + do + "#0.Body, 33554432))"
+	if !c.Atoms["+IsNil("+bodyErr+")"] && pgHasAtom(pg, "+IsNil("+bufRead+"#1)") {
+		bodyData, bodyErr = "(*bytes.Buffer).Bytes(&$[bytes.Buffer])", bufRead+"#1"
+		var other []string
+		nreadfrom := 0
+		for _, st := range pg.States {
+			for _, e := range st.Out {
+				for _, l := range e.Labels {
+					if l.Kind != "call" || l.T == nil || !strings.HasPrefix(l.T.Name, "(*bytes.Buffer).") {
+						continue
+					}
+					switch strings.TrimPrefix(l.T.Name, "(*bytes.Buffer).") {
+					case "Grow", "Bytes", "Len", "Cap":
+					case "ReadFrom":
+						if l.Key != bufRead {
+							other = append(other, c.P.pos(l.Node.Pos)+": "+l.Key)
+						} else {
+							nreadfrom++
+						}
+					default:
+						other = append(other, c.P.pos(l.Node.Pos)+": "+l.Key)
+					}
+				}
+			}
+		}
+		c.add(rule, "download: the buffer holds the bounded read and nothing else", "the buffer whose contents are parsed is filled by one ReadFrom over io.LimitReader(response body, cap) and by no other call", len(other) == 0 && nreadfrom > 0, c.P.pos(pg.G.Root.Decl.Pos()), other...)
+	}
 	for _, g := range []req{
 		{"URL parses", A("+IsNil(net/url.Parse(p1)#1)")},
 		{"scheme is exactly http", A(`+Eq("http", net/url.Parse(p1)#0.Scheme)`)},
 		{"request built with the caller's context", A(`+IsNil(net/http.NewRequestWithContext(p0, "GET", p1, nil)#1)`)},
 		{"transport succeeded", A("+IsNil(" + do + "#1)")},
 		{"HTTP status is 200", A("+Eq(" + do + "#0.StatusCode, 200)")},
-		{"body read without error under the cap", A("+IsNil(" + body + "#1)")},
-		{"body smaller than the cap", A("-Eq(33554432, len(" + body + "#0))")},
-		{"CRL parses", A("+IsNil(crypto/x509.ParseRevocationList(" + body + "#0)#1)")},
+		{"body read without error under the cap", A("+IsNil(" + bodyErr + ")")},
+		{"body smaller than the cap", A("-Eq(33554432, len(" + bodyData + "))")},
+		{"CRL parses", A("+IsNil(crypto/x509.ParseRevocationList(" + bodyData + ")#1)")},
 	} {
 		c.mustPass(pg, rule, "download: "+g.name, "the download helper returns a CRL", ok, g.lp)
 	}
 	good := len(ok) > 0
 	var det []string
 	for _, s := range ok {
-		if retKey(s, 0) != "crypto/x509.ParseRevocationList("+body+"#0)#0" {
+		if retKey(s, 0) != "crypto/x509.ParseRevocationList("+bodyData+")#0" {
 			good = false
 			det = append(det, "returns "+retKey(s, 0))
 		}
@@ -581,4 +611,13 @@ func collectDepths(c *Check, fs *FuncSrc) map[string]int {
 	}
 	visit(fs, 0, 0)
 	return out
+}
+
+func pgHasAtom(pg *PG, a string) bool {
+	for _, x := range pg.AtomSet() {
+		if x == a {
+			return true
+		}
+	}
+	return false
 }
